@@ -32,6 +32,15 @@ R4.6 the parent-change witness of ``HierarchyFilter`` is true whenever the
 R4.7 ``retrieve_manual_indices`` returns (visible exclusions) ∪ (stored
      ∖ visible) and ``apply_manual_indices`` marks exactly the visible ones
      – over all filters, manual arrays and stored id sets of a 3-event root.
+R4.8 refresh histories on root > A > B (apply_filter, _check_parent_filter,
+     set_temporary_feature, reset_filter interpreted): each child excludes
+     exactly its manually excluded root events after every refresh; a
+     reset_filter of a child ends its exclusions (visible and hidden) for good.
+R4.9 ``apply_filter`` evaluated for every content of the parent (each subset
+     of FLUOR_TRACES, each subset of image / image_bg / mask / contour): the
+     child's trace container has exactly the parent's trace names, each
+     wrapper is bound to this child and its feature – a missing item is
+     skipped, it never ends the loop for the remaining items.
 """
 from __future__ import annotations
 
@@ -552,6 +561,8 @@ def r48(ctx, repo):
     hist_z = []
     for z in (("Z", "B"), ("Z", "A")):
         for m in (("m", "B"), ("m", "A")):
+            if ctx.tier != "thorough" and m[1] != z[1]:
+                continue
             for r in ((R(0), R(1), everything) if ctx.tier == "thorough"
                       else (R(0), R(1))):
                 hist_z.append([m, ("F",), z, ("F",), r, ("F",), R(), ("F",)])
